@@ -8,6 +8,7 @@ mod server;
 
 use codec::json_str;
 use props::{Tier, Verdict};
+use runner::Case;
 use std::collections::{BTreeMap, BTreeSet};
 use std::io::Write;
 
@@ -52,6 +53,48 @@ fn main() {
         }
         return;
     }
+    if args.len() >= 4 && args[1] == "rejudge" {
+        // re-execute a recorded case and judge it again: args[2] = property, args[3] = file with `H <input>`, `B <bucket>`,
+        // `I <line>` (implementation) and `D <line>` (driver) lines; exit 1 if the property still fails on it
+        let prop = props::by_id(&args[2]).expect("unknown property");
+        let text = std::fs::read_to_string(&args[3]).expect("cannot read the replay lines");
+        let pick = |p: &str| -> Vec<String> { text.lines().filter_map(|l| l.strip_prefix(p).map(String::from)).collect() };
+        let case = Case {
+            impl_lines: pick("I "),
+            drv_lines: pick("D "),
+            human: pick("H ").into_iter().next().unwrap_or_default(),
+            bucket: pick("B ").into_iter().next().unwrap_or_default(),
+        };
+        match runner::run_cases(&[case.clone()], 1) {
+            Ok(outs) => {
+                let out = &outs[0];
+                for (l, r) in case.impl_lines.iter().zip(out.impl_resp.iter()) {
+                    println!("impl   {:<60} -> {}", show_line(l), r);
+                }
+                for (l, r) in case.drv_lines.iter().zip(out.drv_resp.iter()) {
+                    println!("driver {:<60} -> {}", show_line(l), r);
+                }
+                match prop.judge(&case, out) {
+                    Verdict::SpecViolation(d) => {
+                        println!("STILL-FAILS {}", d);
+                        std::process::exit(1);
+                    },
+                    Verdict::ModelMismatch(d) => {
+                        println!("MODEL-MISMATCH {}", d);
+                        std::process::exit(3);
+                    },
+                    Verdict::Pass { .. } => {
+                        println!("PASSES the property holds on this input now");
+                        std::process::exit(0);
+                    },
+                }
+            },
+            Err(e) => {
+                println!("INFRA {}", e);
+                std::process::exit(4);
+            },
+        }
+    }
     if args.len() >= 2 && args[1] == "k1" {
         std::process::exit(props::misc::k1_main());
     }
@@ -78,8 +121,8 @@ fn main() {
     let mut buckets: BTreeMap<String, usize> = BTreeMap::new();
     let mut classes: BTreeMap<String, usize> = BTreeMap::new();
     let mut samples: Vec<String> = Vec::new();
-    let mut model_mismatches: Vec<(String, String, Vec<String>, Vec<String>)> = Vec::new();
-    let mut spec_violations: Vec<(String, String, Vec<String>, Vec<String>)> = Vec::new();
+    let mut model_mismatches: Vec<(String, String, Vec<String>, Vec<String>, String)> = Vec::new();
+    let mut spec_violations: Vec<(String, String, Vec<String>, Vec<String>, String)> = Vec::new();
     let mut infra_error: Option<String> = None;
 
     // process in slabs to bound memory
@@ -106,12 +149,12 @@ fn main() {
                         },
                         Verdict::ModelMismatch(d) => {
                             if model_mismatches.len() < 200 {
-                                model_mismatches.push((case.human.clone(), d, case.impl_lines.clone(), case.drv_lines.clone()));
+                                model_mismatches.push((case.human.clone(), d, case.impl_lines.clone(), case.drv_lines.clone(), case.bucket.clone()));
                             }
                         },
                         Verdict::SpecViolation(d) => {
                             if spec_violations.len() < 5000 {
-                                spec_violations.push((case.human.clone(), d, case.impl_lines.clone(), case.drv_lines.clone()));
+                                spec_violations.push((case.human.clone(), d, case.impl_lines.clone(), case.drv_lines.clone(), case.bucket.clone()));
                             }
                         },
                     }
@@ -123,7 +166,7 @@ fn main() {
     evaluations += extra_n;
     for (h, d) in extra_viol {
         if spec_violations.len() < 5000 {
-            spec_violations.push((h, d, vec![], vec![]));
+            spec_violations.push((h, d, vec![], vec![], String::new()));
         }
     }
     for n in &extra_notes {
@@ -136,17 +179,17 @@ fn main() {
     }
 
     // the replay is the first entry: make it the smallest failing case found (stable for equal sizes)
-    let size = |x: &(String, String, Vec<String>, Vec<String>)| -> usize { if x.2.is_empty() { x.0.len() } else { x.2.iter().map(|l| l.len()).sum() } };
+    let size = |x: &(String, String, Vec<String>, Vec<String>, String)| -> usize { if x.2.is_empty() { x.0.len() } else { x.2.iter().map(|l| l.len()).sum() } };
     spec_violations.sort_by_key(size);
     model_mismatches.sort_by_key(size);
-    let pairs = |v: &Vec<(String, String, Vec<String>, Vec<String>)>| -> String {
+    let pairs = |v: &Vec<(String, String, Vec<String>, Vec<String>, String)>| -> String {
         let items: Vec<String> = v
             .iter()
             .enumerate()
-            .map(|(i, (h, d, il, dl))| {
+            .map(|(i, (h, d, il, dl, bucket))| {
                 // protocol lines only for the first few (they can be long)
-                let lines = |l: &Vec<String>| if i < 5 { format!("[{}]", l.iter().map(|x| json_str(x)).collect::<Vec<_>>().join(",")) } else { "[]".to_string() };
-                format!("{{\"input\":{},\"detail\":{},\"impl_lines\":{},\"drv_lines\":{}}}", json_str(h), json_str(d), lines(il), lines(dl))
+                let lines = |l: &Vec<String>| if i < 400 { format!("[{}]", l.iter().map(|x| json_str(x)).collect::<Vec<_>>().join(",")) } else { "[]".to_string() };
+                format!("{{\"input\":{},\"detail\":{},\"bucket\":{},\"impl_lines\":{},\"drv_lines\":{}}}", json_str(h), json_str(d), json_str(bucket), lines(il), lines(dl))
             })
             .collect();
         format!("[{}]", items.join(","))
